@@ -6,6 +6,8 @@ For monitor validation only; nothing here is part of a registered check."""
 import json, os, subprocess, sys
 
 WT = os.environ.get("MUTWT", "/tmp/mutwt")
+ROOT = os.path.dirname(os.path.dirname(os.path.abspath(__file__)))
+SHARD = os.environ.get("MUTSHARD", "")  # "k/n": only mutants with index % n == k
 ENV = dict(os.environ, GOFLAGS="-mod=mod", GOPROXY="off", GOSUMDB="off", GOTOOLCHAIN="local")
 
 
@@ -23,9 +25,13 @@ def main():
             sys.exit(1)
     head = sh("git -C /repo rev-parse HEAD").stdout.strip()
     sh(f"git checkout -q --detach {head}; git checkout -q -- .; git clean -fdq", cwd=WT)
-    for m in muts:
+    for mi, m in enumerate(muts):
         if sel and not any(m["id"].startswith(s) for s in sel):
             continue
+        if SHARD:
+            k, n = map(int, SHARD.split("/"))
+            if mi % n != k:
+                continue
         path = os.path.join(WT, m["file"])
         src = open(path).read()
         nth = m.get("nth", 1)
@@ -45,12 +51,14 @@ def main():
                 continue
             verdicts = []
             for chk in m["checks"]:
-                r = sh(f"./check {chk}", cwd="/verif", env=dict(ENV, VERIF_REPO=WT))
+                r = sh(f"./check {chk}", cwd=ROOT, env=dict(ENV, VERIF_REPO=WT))
                 lines = r.stdout.splitlines()
                 nv = sum(1 for l in lines if l.startswith("VIOLATION"))
                 what = [l.strip() for l in lines if l.strip().startswith("what:")][:2]
                 last = [l for l in lines if l.startswith(("HELD", "INCONCLUSIVE"))][:1]
                 verdicts.append((chk, nv, what, last))
+                if nv > 0 and os.environ.get("MUT_STOP"):
+                    break
             caught = any(v[1] > 0 for v in verdicts)
             print(f"{m['id']}: {'CAUGHT' if caught else 'MISSED'} [{m.get('note','')}] " + "; ".join(f"{c}:{n} {w if n else l}" for c, n, w, l in verdicts), flush=True)
         finally:
